@@ -60,6 +60,10 @@ CLAIMED = {
          "Every expression of the typed grammar (depth 2/3) under every admitting and non-admitting constraint in 8 body contexts: the multiset of (address, exact range) of collected local origins equals the generator's list of written references; ordering by file and position; on all sweep files each origin's text re-parses to its address and no duplicates exist.",
          "Iterator variables count as written traversals; object keys only when parenthesised; only schema-known object keys (statement silent: library's choice).",
          "DESIGN.md §6 C10"),
+ "C11": ("exploration", "bounded-exhaustive enumeration: every origin x every position x every definition byte in collected multi-path worlds; full synthetic universe of declaration/origin pairs against an independent matcher",
+         "Inverse (go-to-definition => find-references at every definition byte), locality of count/each/self, path of resolution, cross-path sanity of find-references, and set equality of resolutions with an independent matcher on a synthetic universe put directly into the path context.",
+         "Unconstrained origins resolve to typed declarations only (library's choice, statement silent); find-references inside one path over-approximates by design and is only required not to cross paths.",
+         "DESIGN.md §6 C11"),
  "C16": ("exploration", "combinatorial bounded-exhaustive enumeration: all key sets x all listing orders; marker worlds x all selections x all written orders",
          "Key algebra over 64000 functional key sets and all their permutations (one key per set, injective); marker worlds in which every candidate dependent body carries a unique marker: validation, hover, tokens, targets, origins, completion and links must all see the body the generator selected.",
          "model.Effective must agree with the generator's ground truth (checked; disagreement is reported as a harness error).",
